@@ -9,7 +9,7 @@ TECH = "deterministic simulation with fault injection: seeded search over enviro
 
 CHECKS = {
     "C01": {
-        "text": "Scoped claim, seeded exploration with fault injection: for generated packages, the repo's corpus and a fixed list of 135 probe modules the real CLI runs (a) fault-free under sampled schedules (hash seed, enumeration order, working directory incl. inside the package / a tests directory / a directory holding a decoy package of the same name / a read-only directory, path spellings, invocation style, hostile locale) x all 64 option combinations - the outcome must be 'completed' (API JSON loadable, every written stub present, the same set of analysed modules as the reference run - one run per case lists every directory in reversed order) or the documented rejection, never an exception raised by the tool's own code, an exit with a non-zero status, a death, a livelock of the docstring-loader retry loop or a watchdog timeout; (b) with injected write-side faults (ENOSPC/EACCES/EROFS/EIO/EMFILE at mkdir/touch/open/write/close incl. short writes, transient or persistent, and Ctrl-C inside an I/O call; the first fault of every plan walks round-robin through all 45 (life-cycle step, kind, persistence) combinations, its place is stratified by file class) - the run terminates, a run that reports success has exactly the reference output (also for files whose close is left to the finaliser), a run that fails fails with the injected error itself (identity or explicit cause); (c) into an obstructed output directory - failure only with the file system's own OSError; (d) into a directory populated by an earlier complete, failed or killed run - the run completes with the reference output. The 'for all programs' quantifier is only sampled by the workload.",
+        "text": "Scoped claim, seeded exploration with fault injection: for generated packages, the repo's corpus and a fixed list of 138 probe modules the real CLI runs (a) fault-free under sampled schedules (hash seed, enumeration order, working directory incl. inside the package / a tests directory / a directory holding a decoy package of the same name / a read-only directory, path spellings, invocation style, hostile locale) x all 64 option combinations - the outcome must be 'completed' (API JSON loadable, every written stub present, the same set of analysed modules as the reference run - one run per case lists every directory in reversed order) or the documented rejection, never an exception raised by the tool's own code, an exit with a non-zero status, a death, a livelock of the docstring-loader retry loop or a watchdog timeout; (b) with injected write-side faults (ENOSPC/EACCES/EROFS/EIO/EMFILE at mkdir/touch/open/write/close incl. short writes, transient or persistent, and Ctrl-C inside an I/O call; the first fault of every plan walks round-robin through all 45 (life-cycle step, kind, persistence) combinations, its place is stratified by file class) - the run terminates, a run that reports success has exactly the reference output (also for files whose close is left to the finaliser), a run that fails fails with the injected error itself (identity or explicit cause); (c) into an obstructed output directory - failure only with the file system's own OSError; (d) into a directory populated by an earlier complete, failed or killed run - the run completes with the reference output. The 'for all programs' quantifier is only sampled by the workload.",
         "design_ref": "DESIGN.md §5.1",
         "note": "Trusted: seams/fault injection of vsim/child.py, exception classification by innermost frame under <repo>/src/safeds_stubgen. Read-side faults are out of scope of the property ('any package the type checker can load'). Input forms outside the workload are not covered (a program fuzzer is a different technique); known crashing input forms found on the way were repaired by 'fix:' commits and are kept as probe packages.",
     },
